@@ -28,6 +28,7 @@ import (
 type rigOpts struct {
 	Recovery       bool
 	RecoveryWindow time.Duration
+	RecoveryUseMiddlewares bool
 	CleanerPeriod  time.Duration // with Recovery: period of the log cleaner (hook constructor); 0 = production default (1 min)
 	MaxBuffer      int64
 	DisableMax     bool
@@ -82,7 +83,7 @@ func newRig(o rigOpts) *rig {
 		if w == 0 {
 			w = 2 * time.Minute
 		}
-		cfg.ServerConnectionStateRecovery = sio.ServerConnectionStateRecovery{Enabled: true, MaxDisconnectionDuration: w}
+		cfg.ServerConnectionStateRecovery = sio.ServerConnectionStateRecovery{Enabled: true, MaxDisconnectionDuration: w, UseMiddlewares: o.RecoveryUseMiddlewares}
 		if o.CleanerPeriod != 0 && o.Adapter == nil {
 			cfg.AdapterCreator = adapter.VerifNewSessionAwareAdapterCreator(w, o.CleanerPeriod)
 		}
